@@ -386,6 +386,10 @@ def renamed(ids):
     return ["class-%d" % i for i in ids]
 
 
+def hash_collide_pool(pool):
+    return len(pool) >= 2 and any(pool[0][0] in CATALOG[g_[0]] + CATALOG[g_[1]] and pool[1][0] in CATALOG[g_[0]] + CATALOG[g_[1]] for g_ in COLLIDE)
+
+
 def hash_colliding(actions):
     """True when two different offered actions have table keys (make_hashable) with one hash"""
     try:
@@ -428,7 +432,7 @@ def run_bandit(case, driver):
     shadow = mk_learner(spec)
     # second reference: the same learner taught the same sequence with every action RENAMED (class k -> 'class-k'). What the policy gives the
     # i-th offered action cannot depend on how the actions are spelt, hashed or compared, only on which of them were taught what.
-    twin = mk_learner(spec)
+    twin = mk_learner(spec) if case.get("twin", True) else None
     keep = []
     shared = []           # one list object refilled in place when the case says so (callers do reuse their action list)
     if case.get("shared_list"):
@@ -541,7 +545,7 @@ def run_bandit(case, driver):
                           "predict-prob-differs-from-policy")
                 except Exception:
                     pass
-                if len(set(ids)) == len(ids):
+                if len(set(ids)) == len(ids) and twin is not None:
                     try:
                         keep.append(renamed(ids))
                         ref_q = twin.score(ctx, keep[-1], keep[-1][idx])
@@ -588,7 +592,7 @@ def run_bandit(case, driver):
                           "score-differs-from-policy")
                 except Exception:
                     pass
-                if len(set(ids)) == len(ids):
+                if len(set(ids)) == len(ids) and twin is not None:
                     try:
                         keep.append(renamed(ids))
                         ref_w = [twin.score(ctx, keep[-1], x) for x in keep[-1]]
@@ -645,7 +649,8 @@ def run_bandit(case, driver):
             except Exception:
                 pass
             try:
-                twin.learn(ctx, "class-%d" % aid, r, num(op.get("p", [1, 2])))
+                if twin is not None:
+                    twin.learn(ctx, "class-%d" % aid, r, num(op.get("p", [1, 2])))
             except Exception:
                 pass
             try:
@@ -970,7 +975,7 @@ def run_corral(case, driver):
     # reference for the policy: the same composition asked / taught the same history with every action RENAMED (class k -> 'class-k'); the position
     # it plays and the probability it reports cannot depend on how actions are spelt, hashed or compared (all randomness comes from the fixed seeds)
     try:
-        twin = mk_corral(case)[2]
+        twin = mk_corral(case)[2] if case.get("twin", True) else None
     except Exception:
         twin = None
     inner = []            # (index, the CorralLearner inside base learner #index)
@@ -1499,6 +1504,21 @@ def run_witness(case, driver):
         if ([1, 2] == (1, 2)) or make_hashable([1, 2]) != make_hashable((1, 2)):
             fails.append(F("A", "witness same_key_not_pyEq no longer replays: %s" % impl["list_tuple"], "A:witness-keyeq"))
         return {"fails": fails, "nontrivial": False, "tags": ["kind:witness", "witness:keyeq"], "impl": impl, "model": None}
+    if case["name"] == "ucb_equal_members":
+        # Props.C16.ucb_equal_members_counterexample: a fresh BanditUCB offered [a, a, b] scores every position 1/2
+        from coba.learners import BanditUCBLearner
+        L = BanditUCBLearner(seed=1)
+        A = [(7, 7), (7, 7), "b"]
+        impl["pmf"] = L._pmf(None, A)
+        a, p = L.predict(None, A)
+        impl["pred"] = [repr(a), p]
+        if impl["pmf"] != [0.5, 0.5, 0.5] or p != 0.5:
+            fails.append(F("A", "witness ucb_equal_members no longer replays: %s" % impl, "A:witness-ucb-equal-members"))
+        if driver is not None:
+            mo = driver.ask({"kind": "bandit", "learner": model_learner({"type": "ucb", "seed": 1}), "hist": [{"op": "score", "actions": [0, 0, 1], "a": 1, "vals": []}]})["outs"]
+            if not mo or "score" not in mo[0] or unq(mo[0]["score"]) != Fraction(1, 2):
+                fails.append(F("A", "model: UCB score over [a,a,b] gives %s" % json.dumps(mo), "A:witness-ucb-equal-members"))
+        return {"fails": fails, "nontrivial": False, "tags": ["kind:witness", "witness:ucb-equal-members"], "impl": impl, "model": None}
     if case["name"] == "importance_feedback_unbounded":
         # Props.C16.corral_importance_feedback_unbounded: reward 1 at probability 1/2 reaches the base learner as 2, a Corral rejects 2
         rec = Rec(CorralLearner([RandomLearner(seed=1)], seed=2))
@@ -1660,6 +1680,8 @@ def gen_bandit(rng, tier, search=False):
             acts = action_set()
             hist.append({"op": "score", "actions": acts, "a": rng.choice(acts), "ctx": ctx})
     case = {"t": "bandit", "learner": spec, "pool": pool, "hist": hist}
+    if not collide and len(hist) % 2 == 1:      # the renamed twin runs on the colliding pools, the corpus and a deterministic half of the rest
+        case["twin"] = False
     if rng.chance(0.3):
         case["shared_list"] = True
     elif rng.chance(0.35):
@@ -1716,6 +1738,8 @@ def gen_corral(rng, tier, search=False):
     nrounds = rng.choice([1, 2, 3, 5, 8, 12, 20, 30, 45, 60])
     if search:
         nrounds = rng.choice([5, 12, 30, 60])
+    if not (n >= 2 and base_set[:2] == [0, 1] and hash_collide_pool(pool)) and nrounds % 2 == 1 and nrounds > 1:
+        case["twin"] = False
     for _ in range(nrounds):
         cs = base_set if stable else rng.sample(list(range(npool)), n if with_fixed else rng.randint(1, npool))
         if rng.chance(0.2):
@@ -1841,7 +1865,8 @@ class C16(Property):
         "first_bracket_has_root is over the reals (Mathlib IVT), tied to the rational model by omd_model_is_barrier / omd_defined_iff_below",
         "Corral: the model is the repaired _log_barrier_omd (fixes/C16-corral-omd-root.diff) over exact arithmetic; each update is compared from the "
         "implementation's own previous weights at 2.5e-4 (the accuracy of the root search), skipped when eta*loss/probability > 1e9 or a weight < 1e-9 "
-        "(float cancellation); SafeLearner around the base learners is not modelled (identity on (action, probability) predictions)",
+        "(float cancellation); SafeLearner around the base learners: identity on (action, probability[, kwargs]) predictions by safe_wrapper_identity "
+        "(composition with C15's model of SafeLearner.predict; that model's own tie to coba/safety.py is C15's harness)",
     ]
     assumptions = ["offered lists with equal members: only the learners whose policy is a weight vector over POSITIONS (Fixed, Random, PMFPredictor/PMFInfoPredictor) are judged, and only for "
                    "'one of the offered objects, with the weight of the drawn position, > 0' (score() can only name the first equal member; BanditUCB's pmf over a list with equal members sums to > 1: malformed stream)",
@@ -1852,6 +1877,8 @@ class C16(Property):
                    "[0,1] requirement): such rounds are outside the quantifier",
                    "(B) tolerances: score sums to 1 within 1e-9 (float), Corral weights within 1e-4 (stated in the property)"]
     partial_theorems = {
+        "ucb_pmf_equal_members_partial": "BanditUCB over a list with equal members: defined, entries in [0,1], total >= 1, a distribution once all offered actions are observed; "
+                                         "validity itself fails while an unobserved action is offered twice (ucb_equal_members_counterexample, corpus witness) - the property speaks of action sets",
         "corral_float_weights_sum_partial": "only the normalisation step of the float Corral weights; missing: an error bound for CPython's compensated sum() under the "
                                             "float law (total within relative tau of the true sum is a hypothesis)",
         "corral_nested_valid": "forced hypothesis `accepts`: every Corral at or below a learner must be handed a reward in [0,1]; importance-mode feedback "
@@ -1906,7 +1933,50 @@ class C16(Property):
             os.makedirs(os.path.dirname(path), exist_ok=True)
             with open(path, "w", encoding="utf-8") as f:
                 f.write(body)
-        return [note]
+        return [note, self._pre_build_bandit(ast, lean)]
+
+    def _pre_build_bandit(self, ast, lean):
+        """coba/learners/bandit.py (default epsilon, the cap in `min(1/4, V_j)`) and coba/safety.py (`a in [0,1]`, `abs_tol=.001`) -> Generated/C16BanditConsts.lean"""
+        path = os.path.join(lean.LEAN_DIR, "CobaVerif", "Generated", "C16BanditConsts.lean")
+        repo = os.environ.get("COBA_REPO", "/repo")
+        g = {}
+        try:
+            src = open(os.path.join(repo, "coba", "learners", "bandit.py"), encoding="utf-8").read()
+            tree = ast.parse(src)
+            eps = next(n for n in ast.walk(tree) if isinstance(n, ast.ClassDef) and n.name == "BanditEpsilonLearner")
+            init = next(n for n in eps.body if isinstance(n, ast.FunctionDef) and n.name == "__init__")
+            names = [a.arg for a in init.args.args]
+            dflt = dict(zip(names[len(names) - len(init.args.defaults):], init.args.defaults))
+            g["eps"] = Fraction(ast.get_source_segment(src, dflt["epsilon"]))
+            ucb = next(n for n in ast.walk(tree) if isinstance(n, ast.FunctionDef) and n.name == "_Avg_R_UCB")
+            mn = next(n for n in ast.walk(ucb) if isinstance(n, ast.Call) and isinstance(n.func, ast.Name) and n.func.id == "min")
+            cap = mn.args[0]
+            g["cap"] = (Fraction(ast.literal_eval(cap.left)) / Fraction(ast.literal_eval(cap.right))) if isinstance(cap, ast.BinOp) and isinstance(cap.op, ast.Div) \
+                else Fraction(ast.get_source_segment(src, cap))
+            ssrc = open(os.path.join(repo, "coba", "safety.py"), encoding="utf-8").read()
+            stree = ast.parse(ssrc)
+            ms = next(n for n in ast.walk(stree) if isinstance(n, ast.Assign) and len(n.targets) == 1 and isinstance(n.targets[0], ast.Name) and n.targets[0].id == "make_safe")
+            cmpn = next(n for n in ast.walk(ms.value) if isinstance(n, ast.Compare) and isinstance(n.ops[0], ast.In))
+            g["ints"] = list(ast.literal_eval(cmpn.comparators[0]))
+            pp = next(n for n in ast.walk(stree) if isinstance(n, ast.FunctionDef) and n.name == "possible_pmf")
+            kw = next(k for n in ast.walk(pp) if isinstance(n, ast.Call) and isinstance(n.func, ast.Name) and n.func.id == "isclose" for k in n.keywords if k.arg == "abs_tol")
+            g["tol"] = Fraction(ast.get_source_segment(ssrc, kw.value) if not ast.get_source_segment(ssrc, kw.value).startswith(".") else "0" + ast.get_source_segment(ssrc, kw.value))
+            ok = g["eps"] >= 0 and g["cap"] >= 0 and g["tol"] >= 0 and all(type(x) is int for x in g["ints"])
+        except Exception:
+            ok = False
+        if not ok:
+            g = {"eps": Fraction(1, 20), "cap": Fraction(1, 4), "ints": [0, 1], "tol": Fraction(1, 1000)}
+        body = ("-- GENERATED by harness/props/c16.py from coba/learners/bandit.py and coba/safety.py on every run; do not edit.\n"
+                "namespace Coba.Generated.C16\ndef epsDefaultNum : Nat := %d\ndef epsDefaultDen : Nat := %d\ndef ucbVarCapNum : Nat := %d\ndef ucbVarCapDen : Nat := %d\n"
+                "def safeInts : List Int := [%s]\ndef possiblePmfTolNum : Nat := %d\ndef possiblePmfTolDen : Nat := %d\ndef banditExtracted : Bool := %s\n"
+                "end Coba.Generated.C16\n" % (g["eps"].numerator, g["eps"].denominator, g["cap"].numerator, g["cap"].denominator, ", ".join(str(x) for x in g["ints"]),
+                                                g["tol"].numerator, g["tol"].denominator, "true" if ok else "false"))
+        old = open(path, encoding="utf-8").read() if os.path.exists(path) else None
+        if old != body:
+            with open(path, "w", encoding="utf-8") as f:
+                f.write(body)
+        return ("bandit/safety constants extracted: eps=%s cap=%s ints=%s tol=%s" % (g["eps"], g["cap"], g["ints"], g["tol"])) if ok else \
+            "bandit/safety constants could not be extracted (source reshaped)"
 
     def generate(self, rng, tier):
         r = rng.below(100)
@@ -2007,6 +2077,7 @@ class C16(Property):
                         cs.append({"t": "dups", "learner": dict(sp_, mis=[[q(0.5), q(-1)]]), "pool": dpool, "hist": hh})
         cs.append({"t": "witness", "name": "importance_feedback_unbounded", "hist": []})
         cs.append({"t": "witness", "name": "keyeq_sweep", "hist": []})
+        cs.append({"t": "witness", "name": "ucb_equal_members", "hist": []})
         # replays of recorded (now fixed) findings and other hand-made cases: corpus/C16/*.json
         d = os.path.join(os.path.dirname(os.path.dirname(os.path.dirname(os.path.abspath(__file__)))), "corpus", "C16")
         if os.path.isdir(d):
